@@ -141,8 +141,13 @@ type ConsS struct {
 	VT         uint64 `json:"vt"`
 	CVT        uint64 `json:"cvt"`
 }
+type SealS struct { // header.Signature
+	Kind int `json:"kind"` // 0 signature of Key over this header's hash, 1 missing, 2 wrong length, 3 signature of Key over another header's hash, 4 65 bytes that are no signature
+	Key  int `json:"key"`  // key id; -2 a key outside every set
+}
 type HdrS struct {
 	Number    uint64 `json:"number"`
+	Seal      *SealS `json:"seal,omitempty"` // nil: sealed by the key that signed the consensus data (the honest sealing path)
 	Cons      ConsS  `json:"cons"`
 	Val       UVS    `json:"val"`
 	Cert      UVS    `json:"cert"`
@@ -376,6 +381,14 @@ type built struct {
 	hash             common.Hash
 	prio             common.Hash
 	signerKey        *ecdsa.PublicKey // what GetPublicKey() returns (nil = error)
+	sealKey          *ecdsa.PublicKey // what crypto.SigToPub(header hash, header.Signature) returns (nil = error)
+}
+
+func skOf(id int) *ecdsa.PrivateKey {
+	if id < 0 || id >= len(keys) {
+		return outsiderKey
+	}
+	return keys[id].sk
 }
 
 func installVersions(c *Case) {
@@ -466,6 +479,35 @@ func build(c *Case) *built {
 		}
 		return out
 	}
+	// seal: what ucon's Seal does is crypto.Sign(header.Hash().Bytes(), rawSk) with the proposer's key
+	seal := SealS{Kind: 0, Key: c.H.Cons.Signer}
+	if c.H.Seal != nil {
+		seal = *c.H.Seal
+	}
+	switch seal.Kind {
+	case 0:
+		sig, err := crypto.Sign(b.hash.Bytes(), skOf(seal.Key))
+		if err != nil {
+			panic(err)
+		}
+		h.Signature = sig
+	case 1:
+		h.Signature = []byte{}
+	case 2:
+		h.Signature = badBytes("shortseal", seal.Key, 64)
+	case 3:
+		sig, err := crypto.Sign(otherHash.Bytes(), skOf(seal.Key))
+		if err != nil {
+			panic(err)
+		}
+		h.Signature = sig
+	default:
+		h.Signature = badBytes("junkseal", seal.Key, 65)
+		h.Signature[64] = 7 // invalid recovery id
+	}
+	if pk, err := crypto.SigToPub(b.hash.Bytes(), h.Signature); err == nil && pk != nil {
+		b.sealKey = pk
+	}
 	h.Validator = enc(c.H.Val, false)
 	h.Certificate = enc(c.H.Cert, true)
 	if h.Hash() != b.hash {
@@ -505,6 +547,10 @@ func classify(err error) (int, string) {
 		return 9, m
 	case m == "unknown ancestor":
 		return 10, m
+	case m == "invalid consensus data format":
+		return 13, m
+	case m == "invalid sealer":
+		return 14, m
 	}
 	return 12, m
 }
@@ -675,17 +721,30 @@ func caseCoq(c *Case, b *built) string {
 		}
 		return fmt.Sprintf("(Some (mkUV %d %s %s [] None))", u.RoundIndex, votesCoq(u.Votes), aggCoq(u.Agg, 1))
 	}
-	// keys outside the pool get id 1000
-	signer := "None"
-	if b.signerKey != nil {
-		id := 1000
-		a := crypto.PubkeyToAddress(*b.signerKey)
+	// the outsider key gets id 1000, keys recovered from mismatching signatures 1001, 1002, ...
+	unknown := map[common.Address]int{}
+	keyID := func(pk *ecdsa.PublicKey) int {
+		a := crypto.PubkeyToAddress(*pk)
 		for i, k := range keys {
 			if k.addr == a {
-				id = i
+				return i
 			}
 		}
-		signer = fmt.Sprintf("(Some %d)", id)
+		if a == crypto.PubkeyToAddress(outsiderKey.PublicKey) {
+			return 1000
+		}
+		if _, ok := unknown[a]; !ok {
+			unknown[a] = 1001 + len(unknown)
+		}
+		return unknown[a]
+	}
+	signer := "None"
+	if b.signerKey != nil {
+		signer = fmt.Sprintf("(Some %d)", keyID(b.signerKey))
+	}
+	var recTbl []string
+	if b.sealKey != nil {
+		recTbl = append(recTbl, fmt.Sprintf("((0, 1), %d)", keyID(b.sealKey)))
 	}
 	cons := "None"
 	if !c.H.Cons.Nil {
@@ -698,20 +757,20 @@ func caseCoq(c *Case, b *built) string {
 	if c.H.ParentBad == 3 {
 		hdrParent = 1
 	}
-	hdr := fmt.Sprintf("(mkH %d 0 %d 1 %s %s %s)", c.H.Number, hdrParent, cons, uvCoq(c.H.Val, false), uvCoq(c.H.Cert, true))
+	hdr := fmt.Sprintf("(mkH %d 0 %d 1 %s %s %s 1)", c.H.Number, hdrParent, cons, uvCoq(c.H.Val, false), uvCoq(c.H.Cert, true))
 	parent := "None"
 	if c.H.ParentBad != 1 {
 		pn := c.H.Number - 1
 		if c.H.ParentBad == 2 {
 			pn = c.H.Number + 1
 		}
-		parent = fmt.Sprintf("(Some (mkH %d %d 3 1 None None None))", pn, parentHashID)
+		parent = fmt.Sprintf("(Some (mkH %d %d 3 1 None None None 0))", pn, parentHashID)
 	}
 	lbh := func(h LBH) string {
 		if h.ConsNil {
-			return fmt.Sprintf("(mkH 0 5 5 %d None None None)", h.Version)
+			return fmt.Sprintf("(mkH 0 5 5 %d None None None 0)", h.Version)
 		}
-		return fmt.Sprintf("(mkH 0 5 5 %d (Some (mkCD 0 1 %d 0 0 0 None 0 0 %d)) None None)", h.Version, h.Seed, h.CVT)
+		return fmt.Sprintf("(mkH 0 5 5 %d (Some (mkCD 0 1 %d 0 0 0 None 0 0 %d)) None None 0)", h.Version, h.Seed, h.CVT)
 	}
 	// ---- tables
 	thrs := []uint64{c.CP.PT, c.CP.VT, c.CP.CVT, c.H.Cons.PT, c.H.Cons.VT, c.H.Cons.CVT, c.CertH.CVT}
@@ -781,7 +840,7 @@ func caseCoq(c *Case, b *built) string {
 		qTbl = append(qTbl, fmt.Sprintf("((%d, true), %d)", t, quorumOf(t, true)))
 		qTbl = append(qTbl, fmt.Sprintf("((%d, false), %d)", t, quorumOf(t, false)))
 	}
-	tables := fmt.Sprintf("(mkT %s %s %s %s %s)", vf.List(vrfTbl), vf.List(seatTbl), vf.List(prioTbl), vf.List(qTbl), vf.List(sigTbl))
+	tables := fmt.Sprintf("(mkT %s %s %s %s %s %s)", vf.List(vrfTbl), vf.List(seatTbl), vf.List(prioTbl), vf.List(qTbl), vf.List(sigTbl), vf.List(recTbl))
 	var vers []string
 	for _, v := range c.Vers {
 		vers = append(vers, fmt.Sprintf("(%d, mkCP %d %d %d true)", v.V, v.CP.PT, v.CP.VT, v.CP.CVT))
@@ -798,7 +857,7 @@ func caseCoq(c *Case, b *built) string {
 // ---- property oracle ----------------------------------------------------------
 
 // relax: which of the three listed weaknesses the evaluation tolerates
-type relax struct{ hdrThr, nonMember, zeroSeat bool }
+type relax struct{ hdrThr, nonMember, zeroSeat, seal bool }
 
 func isMember(v ValS) bool { return (v.Role == 1 || v.Role == 2) && v.Status == 1 }
 
@@ -865,6 +924,10 @@ func propertyHolds(c *Case, b *built, rx relax) bool {
 	if cs.Signer < 0 || cs.Proof.Kind != 0 || cs.PrioBad {
 		return false
 	}
+	// the header is sealed, over its own hash, by the key that signed the consensus data
+	if !rx.seal && c.H.Seal != nil && (c.H.Seal.Kind != 0 || c.H.Seal.Key != cs.Signer) {
+		return false
+	}
 	var prop *ValS
 	for i := range c.LB.Vals {
 		if !c.LB.Vals[i].MainBad && c.LB.Vals[i].Key == cs.Signer {
@@ -918,6 +981,7 @@ const (
 	whatMember    = "C01-non-member-or-offline-voter-counted"
 	whatZero      = "C01-proposer-with-zero-seats"
 	whatUnknown   = "C01-accepted-without-protocol-quorum"
+	whatSeal      = "C01-header-signature-not-by-the-proposer-key"
 	whatPanic     = "C01-verifier-panics"
 	whatPanicBls  = "C01-panic-on-neutral-bls-element"
 	whatPanicSeat = "C01-panic-on-threshold-above-total-stake"
@@ -945,6 +1009,9 @@ func oracle(c *Case, b *built) []string {
 	if propertyHolds(c, b, relax{}) {
 		return nil
 	}
+	if propertyHolds(c, b, relax{seal: true}) {
+		return []string{whatSeal}
+	}
 	// smallest sets of listed weaknesses that explain the acceptance
 	names := []string{whatThr, whatMember, whatZero}
 	for size := 1; size <= 3; size++ {
@@ -958,7 +1025,7 @@ func oracle(c *Case, b *built) []string {
 			if bits != size {
 				continue
 			}
-			if propertyHolds(c, b, relax{mask&1 != 0, mask&2 != 0, mask&4 != 0}) {
+			if propertyHolds(c, b, relax{mask&1 != 0, mask&2 != 0, mask&4 != 0, false}) {
 				var out []string
 				for i := uint(0); i < 3; i++ {
 					if mask>>i&1 == 1 {
@@ -1541,9 +1608,11 @@ func (g *gen) one(res *vf.Result) Case {
 		res.Count("forge:none")
 	}
 	for f := 0; f < nf; f++ {
-		switch r.Intn(11) {
+		switch r.Intn(13) {
 		case 0, 1, 2:
 			g.forgeVotes(&c, c.LB, &c.H.Val, c.SeedH.Seed, stepPrecommit, res)
+		case 11, 12:
+			g.forgeSeal(&c, res)
 		case 10:
 			g.forgeProposer(&c, total, res)
 		case 3, 4:
@@ -1720,6 +1789,51 @@ func (g *gen) forgeProposer(c *Case, total uint64, res *vf.Result) {
 	}
 }
 
+// forgeSeal: the header signature (header.Signature, made by Seal over Hash())
+func (g *gen) forgeSeal(c *Case, res *vf.Result) {
+	r := g.r
+	cs := &c.H.Cons
+	other := func() int { // another key of the look-back set (a validator that is not the proposer)
+		for try := 0; try < 8; try++ {
+			v := c.LB.Vals[r.Intn(len(c.LB.Vals))]
+			if v.Key != cs.Signer {
+				return v.Key
+			}
+		}
+		return (cs.Signer + 1 + nKeys) % nKeys
+	}
+	tag := ""
+	switch r.Intn(8) {
+	case 0:
+		c.H.Seal = &SealS{Kind: 1}
+		tag = "seal_missing"
+	case 1:
+		c.H.Seal = &SealS{Kind: 2, Key: cs.Signer}
+		tag = "seal_wrong_length"
+	case 2:
+		c.H.Seal = &SealS{Kind: 4, Key: cs.Signer}
+		tag = "seal_junk"
+	case 3: // valid signature over this header by another validator
+		c.H.Seal = &SealS{Kind: 0, Key: other()}
+		tag = "seal_by_other_validator"
+	case 4: // valid signature by a key outside every set
+		c.H.Seal = &SealS{Kind: 0, Key: -2}
+		tag = "seal_by_outsider"
+	case 5: // the proposer's signature over another header (replay)
+		c.H.Seal = &SealS{Kind: 3, Key: cs.Signer}
+		tag = "seal_over_other_header"
+	case 6: // consensus data re-signed by another validator, header sealed by the credential's owner
+		owner := cs.Signer
+		cs.Signer = other()
+		c.H.Seal = &SealS{Kind: 0, Key: owner}
+		tag = "seal_by_credential_owner_consensus_by_other"
+	case 7: // control: explicit honest seal
+		c.H.Seal = &SealS{Kind: 0, Key: cs.Signer}
+		tag = "seal_explicit_honest"
+	}
+	res.Count("forge:" + tag)
+}
+
 func (g *gen) forgeFrame(c *Case, res *vf.Result) {
 	r := g.r
 	tag := ""
@@ -1781,7 +1895,8 @@ func loadCorpus(dir string) []Case {
 
 var verdictNames = map[int]string{0: "accept", 1: "reject:lookback_consensus", 2: "reject:invalid_consensus_data", 3: "reject:illegal_proposer",
 	4: "reject:aggregate_undecodable", 5: "reject:recover_signer", 6: "reject:bls_mismatch", 7: "reject:unknown_version", 8: "reject:no_parents",
-	9: "reject:unknown_block", 10: "reject:unknown_ancestor", 11: "PANIC", 12: "reject:other"}
+	9: "reject:unknown_block", 10: "reject:unknown_ancestor", 11: "PANIC", 12: "reject:other",
+	13: "reject:consensus_data_format", 14: "reject:invalid_sealer"}
 
 func runGen(seed uint64, n int, outDir, corpusDir, variant string) {
 	r := vf.NewRng(seed)
@@ -1835,7 +1950,7 @@ func runGen(seed uint64, n int, outDir, corpusDir, variant string) {
 	vf.WriteFile(filepath.Join(outDir, "Cases.v"), sb.String())
 	res.Cases = count
 	res.Distinct = len(distinct)
-	res.Rule = "validator sets of 3-8 members with real secp256k1/BLS keys (roles chancellor/senator/house/invalid, on/offline, zero stake, undecodable keys, statistic inconsistent or empty), protocol thresholds real (26/2000/4000) or scaled down; an honest header is assembled (real VRF proposer credential, real precommit sortitions, votes trimmed to all / just-enough / one-short of the quorum, real BLS aggregate; certificate votes in certificate rounds) and then 0-3 forgeries applied out of 17 vote/aggregate forgeries, 5 threshold forgeries, 11 proposer forgeries, 8 framing forgeries; a case = full verifier input + implementation verdict; non-trivial = has votes or an undecodable consensus field; distinct by full projected input"
+	res.Rule = "validator sets of 3-8 members with real secp256k1/BLS keys (roles chancellor/senator/house/invalid, on/offline, zero stake, undecodable keys, statistic inconsistent or empty), protocol thresholds real (26/2000/4000) or scaled down; an honest header is assembled (real VRF proposer credential, real precommit sortitions, votes trimmed to all / just-enough / one-short of the quorum, real BLS aggregate; certificate votes in certificate rounds) and then 0-3 forgeries applied out of 17 vote/aggregate forgeries, 6 threshold forgeries, 11 proposer forgeries, 8 header-signature forgeries, 8 framing forgeries, 3 whole-list certificate forgeries, or one of 14 'missing vote re-added in a corrupted form' attacks on a list that is one vote short; headers are sealed the way ucon's Seal does (crypto.Sign over Hash() with the proposer key); a case = full verifier input + implementation verdict; non-trivial = has votes or an undecodable consensus field; distinct by full projected input"
 	res.Extra["variant"] = variant
 	res.Write(filepath.Join(outDir, "result.json"))
 }
